@@ -29,6 +29,8 @@ PID = "C07"
 PROOF_FILES = ["theories/Props/C07.v", "theories/Proofs/Epa.v", "theories/Checker/Pen.v", "theories/Checker/Narrow.v",
                "theories/Checker/Shapes.v", "theories/Spec/Convex.v"]
 KINDS_POLY = ["box", "hull", "mesh"]
+BUILD_TARGETS = ["theories/Props/C07.vo", "theories/Checker/Pen.vo", "theories/Checker/Deep.vo", "theories/Checker/Narrow.vo",
+                 "theories/Model/EpaRun.vo"]
 # arms of gjk's exit / epa.py observed by the worker (harness/impl/narrowp.py)
 ALL_ARMS = ["gjk_exit_n_points_1", "gjk_exit_n_points_2", "gjk_exit_n_points_3", "gjk_exit_n_points_4",
             "simplex_winding_pos", "simplex_winding_neg", "simplex_winding_flat", "closest_dist_negative",
@@ -183,8 +185,13 @@ Open Scope float_scope.
 CORR_TOL = 1e-9
 
 
-def model_expr(case, r):
-    """Model/EpaRun.epa_run (binary64, whole EPA loop) for vertex-hull pairs with four live rows"""
+N_PERT = 3
+
+
+def model_exprs(case, r):
+    """Model/EpaRun.epa_run_m (binary64, whole EPA loop) for vertex-hull pairs with four live rows: the exact inputs
+    first, then N_PERT copies with every coordinate moved by a few ulps of the scene size (stability probe)"""
+    import random
     s1, s2 = case["c1"], case["c2"]
     if s1["kind"] != "hull" or s2["kind"] != "hull" or "margin" in s1 or "margin" in s2:
         return None
@@ -195,56 +202,84 @@ def model_expr(case, r):
         S = [S[0], S[2], S[1], S[3]]
     if not all(np.isfinite(x) for row in S for x in row):
         return None
+    L = case["meta"].get("L") or 1.0
+    rng = random.Random(cm.canon_hash(dict(c1=s1, c2=s2)))
     fv = lambda v: "(V " + " ".join(cm.fhex(x) for x in v) + ")"
-    hull = lambda sp: "[" + "; ".join(fv(v) for v in sp["vertices"]) + "]"
-    return f"epa_run_m {cm.fhex(1e-8)} 64 32 64 {hull(s1)} {hull(s2)} " + " ".join(fv(row) for row in S)
+    out = []
+    for k in range(1 + N_PERT):
+        def pv(v):
+            if k == 0:
+                return [float(x) for x in v]
+            return [float(x) + rng.choice([-4, -3, -2, -1, 1, 2, 3, 4]) * 2.0 ** -52 * L for x in v]
+        V1 = [pv(v) for v in s1["vertices"]]
+        V2 = [pv(v) for v in s2["vertices"]]
+        SS = [pv(row) for row in S]
+        hull = lambda V: "[" + "; ".join(fv(v) for v in V) + "]"
+        out.append(f"epa_run_m {cm.fhex(1e-8)} 64 32 64 {hull(V1)} {hull(V2)} " + " ".join(fv(row) for row in SS))
+    return out
 
 
 def correspondence(R, cases, results):
-    """success flag, mtv and number of faces of epa() against the binary64 run of Model/Epa.v"""
+    """success flag, mtv and number of faces of epa() against the binary64 run of Model/Epa.v.  Discrete observables
+    (success, number of faces) and the vector itself are only demanded to agree where the MODEL's own behaviour is stable
+    under perturbations of a few ulps of all inputs and np.argmin never had to decide between faces closer than 1e-9 L
+    (lattice scenes: coplanar faces, dot products that are 0 up to rounding, BLAS/FMA order); otherwise only |mtv|."""
     import re
     exprs, idx = [], []
     for i, (c, r) in enumerate(zip(cases, results)):
-        e = model_expr(c, r)
+        e = model_exprs(c, r)
         if e is not None:
-            exprs.append(e)
+            exprs += e
             idx.append(i)
-    stats = dict(compared=0, agree=0, agree_length_only_margin_unclear=0, mismatch=0, capacity_both=0)
+    stats = dict(compared=0, agree=0, agree_length_only_model_unstable=0, mismatch=0, capacity_both=0)
     if not exprs:
         return stats
     try:
         outs = cm.coq_eval_lines(PID, CORR_HEADER, exprs, tag="model", per_file=8, timeout=1500)
     except RuntimeError as e:
-        R.corr_broken.append(f"model evaluation failed: {str(e)[:300]}")
-        return stats
+        if "inconsistent assumptions" in str(e):
+            cm.coq_build(BUILD_TARGETS)
+            try:
+                outs = cm.coq_eval_lines(PID, CORR_HEADER, exprs, tag="model", per_file=8, timeout=1500)
+            except RuntimeError as e2:
+                R.corr_broken.append(f"model evaluation failed: {str(e2)[:300]}")
+                return stats
+        else:
+            R.corr_broken.append(f"model evaluation failed: {str(e)[:300]}")
+            return stats
     num = r"\(?(-?[0-9.e+-]+|infinity|nan)\)?"
-    for i, o in zip(idx, outs):
-        m = re.match(r"\((\d+)%nat,\s*\{\|\s*vx := " + num + r"; vy := " + num + r"; vz := " + num + r"\s*\|\},\s*(\d+)%nat,\s*" + num + r"\)",
-                     o.replace("\n", " "))
+    pat = re.compile(r"\((\d+)%nat,\s*\{\|\s*vx := " + num + r"; vy := " + num + r"; vz := " + num + r"\s*\|\},\s*(\d+)%nat,\s*" + num + r"\)")
+
+    def parse(o):
+        m = pat.match(o.replace("\n", " "))
         if not m:
-            R.corr_broken.append(f"unparsable model output {o[:120]}")
+            return None
+        return (int(m.group(1)), [float(x) for x in m.group(2, 3, 4)], int(m.group(5)), float(m.group(6).replace("infinity", "inf")))
+    for n, i in enumerate(idx):
+        runs = [parse(o) for o in outs[n * (1 + N_PERT):(n + 1) * (1 + N_PERT)]]
+        if any(x is None for x in runs):
+            R.corr_broken.append(f"unparsable model output for case {i}")
             continue
-        tag, nf = int(m.group(1)), int(m.group(5))
-        mv = [float(x) for x in m.group(2, 3, 4)]
-        margin = float(m.group(6).replace("infinity", "inf"))
+        tag, mv, nf, margin = runs[0]
         r = results[i]
         L = cases[i]["meta"].get("L") or 1.0
-        clear = margin > 1e-9 * L        # np.argmin never had to decide between faces closer than that
+        stable = (margin > 1e-9 * L and all(x[0] == tag and x[2] == nf and x[3] > 1e-9 * L and
+                                            max(abs(a - b) for a, b in zip(x[1], mv)) <= CORR_TOL * L for x in runs[1:]))
         stats["compared"] += 1
         if "exc" in r:
-            ok = (tag == 2 and is_capacity_assert(r)) or not clear
+            ok = (tag == 2 and is_capacity_assert(r)) or not stable
             stats["capacity_both"] += int(tag == 2 and is_capacity_assert(r))
             impl = r["exc"]
         elif r.get("success"):
             dev = max(abs(a - b) for a, b in zip(mv, r["mtv"]))
-            if clear:
+            if stable:
                 ok = tag == 1 and dev <= CORR_TOL * L and nf == r.get("n_faces")
-            else:           # ties (coplanar new faces, symmetric scenes): only the length is comparable
+            else:
                 ok = tag != 1 or abs(float(np.linalg.norm(mv)) - float(np.linalg.norm(r["mtv"]))) <= 1e-6 * L
-                stats["agree_length_only_margin_unclear"] += int(ok)
+                stats["agree_length_only_model_unstable"] += int(ok)
             impl = (r["mtv"], r.get("n_faces"))
         else:
-            ok = tag == 0 or not clear
+            ok = tag == 0 or not stable
             impl = "success=False"
         if ok:
             stats["agree"] += 1
@@ -252,7 +287,7 @@ def correspondence(R, cases, results):
             stats["mismatch"] += 1
             if len(R.corr_broken) < 5:
                 R.corr_broken.append(f"Model/Epa.v vs epa() on case {i} ({cases[i]['meta'].get('stream')}): model tag={tag} mtv={mv} faces={nf} "
-                                     f"argmin margin={margin}; implementation {impl}")
+                                     f"argmin margin={margin} (stable under ulp perturbations); implementation {impl}")
     return stats
 
 
@@ -271,8 +306,7 @@ def run(tier, seed, replay=None):
     ]
     tm = {}
     t0 = time.time()
-    R.check_proofs(PROOF_FILES, build_targets=["theories/Props/C07.vo", "theories/Checker/Pen.vo", "theories/Checker/Deep.vo",
-                                               "theories/Checker/Narrow.vo", "theories/Model/EpaRun.vo"])
+    R.check_proofs(PROOF_FILES, build_targets=BUILD_TARGETS)
     tm['proofs'] = round(time.time() - t0, 1)
     t0 = time.time()
     cases = []
@@ -309,7 +343,20 @@ def run(tier, seed, replay=None):
         for i, rr in zip(redo, npn.run_cases(PID, rc, tag="big")):
             big[i] = rr[0]
 
+    # GJK stopped with fewer than 4 live rows: run the same query again with the dead rows replaced by proper support
+    # points (completed tetrahedron, enlarged capacities); F2 is only blamed if EPA is right on that input
+    COMP = 1000000
+    comp_idx = [i for i, r in enumerate(results) if f2_predicate(r) and r.get("stage") == "epa"]
+    comp = {}
+    if comp_idx:
+        rc = [dict(cases[i], ops=[dict(cases[i]["ops"][0], kw=BIG, complete=True)]) for i in comp_idx]
+        for i, rr in zip(comp_idx, npn.run_cases_confirmed(PID, rc, tag="comp")):
+            comp[i] = rr[0]
+
     to_judge = []
+    for i, rcm in comp.items():
+        if rcm.get("success") and "exc" not in rcm and rcm.get("mtv") is not None and all(np.isfinite(rcm["mtv"])):
+            to_judge.append((COMP + i, cases[i], rcm))
     for i, (c, r) in enumerate(zip(cases, results)):
         meta = c.get("meta", {})
         bump(hist, meta.get("stream", "corpus"))
@@ -386,6 +433,7 @@ def run(tier, seed, replay=None):
         by_case.setdefault(i, {})[role] = v
 
     distinct = set()
+    unjudged = set()
     stats = dict(touch_proved=0, minimal_proved_tree=0, minimal_trivial_short=0, minimal_unproved_no_tree=0,
                  minimal_unproved_not_polytope=0, refuted_too_long=0, refuted_gap=0, refuted_overlap_oracle=0,
                  ambiguous=0)
@@ -395,6 +443,7 @@ def run(tier, seed, replay=None):
     for i, pz in judged.items():
         v = by_case.get(i, {})
         if not v or any(x is None for x in v.values()):
+            unjudged.add(i)
             continue
         tauf = pz["tau"]
         problems = []
@@ -436,8 +485,8 @@ def run(tier, seed, replay=None):
             stats["minimal_unproved_not_polytope"] += 1
         if problems:
             fails[i] = problems
-        c = cases[i]
-        distinct.add(cm.canon_hash(dict(c1=c["c1"], c2=c["c2"], flip=c["meta"].get("flip"))))
+        c = cases[i % COMP]
+        distinct.add(cm.canon_hash(dict(c1=c["c1"], c2=c["c2"], flip=c["meta"].get("flip"), completed=i >= COMP)))
     if second:
         sv = npn_bools(R, second, tag="cert2")
         retry = {}
@@ -454,13 +503,44 @@ def run(tier, seed, replay=None):
                 elif i not in fails:
                     stats["ambiguous"] += 1
     # ---------------------------------------------------------------- verdicts
+    def completed_ok(i):
+        """the same query with a proper tetrahedron instead of GJK's work array succeeded and passed every certificate"""
+        k = COMP + i
+        return k in judged and k not in fails and k not in unjudged
+
+    comp_status = dict(passed=0, failed=0, unavailable=0)
+    for i in comp:
+        if completed_ok(i):
+            comp_status["passed"] += 1
+        elif "skipped" in comp[i]:
+            comp_status["unavailable"] += 1
+        else:
+            comp_status["failed"] += 1
     for i, problems in fails.items():
+        if i >= COMP:
+            continue            # completed-simplex reruns are only evidence for the F2 attribution below
         c, r = cases[i], results[i]
         if f2_predicate(r):
             f2_cases.append((i, problems[0]))
         else:
             extra = " [result obtained with enlarged capacities after the default run hit max_faces]" if i in big else ""
             R.failure("; ".join(problems) + extra, dict(c, result=big.get(i, r)), site="epa.epa")
+    # F2 attribution: n_points < 4 AND (EPA is right once the dead rows are replaced, or no tetrahedron exists and a dead
+    # row is demonstrably not a support difference of this run)
+    f2_ok, f2_not = [], []
+    for i, what in f2_cases:
+        r = results[i]
+        dead_unsupported = r.get("rows_supported") is not None and not all(r["rows_supported"][(r.get("n_points") or 0):])
+        if completed_ok(i) or ("skipped" in comp.get(i, {}) and dead_unsupported):
+            f2_ok.append((i, what))
+        else:
+            f2_not.append((i, what))
+    for i, what in f2_not[:5]:
+        rcm = comp.get(i, {})
+        R.failure(what + " [GJK stopped with n_points < 4, but the same query with the dead rows replaced by support points does not pass either: "
+                  + (f"raised {rcm.get('exc')}" if "exc" in rcm else f"success={rcm.get('success')} problems={fails.get(COMP + i)}") + "]",
+                  dict(cases[i], result=r, result_completed=rcm), site="epa.epa")
+    f2_cases = f2_ok
     known = {e["id"]: e for e in R.known}
     for e in R.known:          # tolerate other ids: match the entries by their call site
         site = e.get("site", "")
@@ -492,10 +572,11 @@ def run(tier, seed, replay=None):
     R.cov["arms"] = dict(sorted(arms.items()))
     R.cov["arms_not_reached"] = [a for a in ALL_ARMS if a not in arms]
     R.cov["f2_cases_gjk_exit_with_fewer_than_4_points"] = len(f2_cases)
+    R.cov["f2_completed_simplex_reruns"] = dict(run=len(comp), **comp_status)
     R.cov["capacity_cases_rerun_with_enlarged_limits"] = len(cap_cases)
     if tree_nodes:
         R.cov["cone_tree_nodes"] = dict(min=min(tree_nodes), median=int(np.median(tree_nodes)), max=max(tree_nodes))
-    for i in list(judged)[:3]:
+    for i in [k for k in judged if k < COMP][:3]:
         c, r = cases[i], results[i]
         R.sample(dict(c1=c["c1"], c2=c["c2"], meta=c["meta"],
                       result={k: r.get(k) for k in ("mtv", "success", "n_faces", "n_points", "simplex", "arms")},
@@ -514,7 +595,7 @@ def npn_bools(R, exprs, tag="cert"):
             break
         except RuntimeError as e:
             if attempt == 0 and "inconsistent assumptions" in str(e):
-                cm.coq_build([f"theories/Props/{PID}.vo"])     # another agent rebuilt a dependency meanwhile
+                cm.coq_build(BUILD_TARGETS)     # another agent rebuilt a dependency meanwhile
                 continue
             R.proof_broken.append(f"checker evaluation failed: {str(e)[:400]}")
             return [None] * len(exprs)
